@@ -627,4 +627,77 @@ def fromPaths {D} (H : Hasher D) (paths : List (List D)) (indexes : List Nat) : 
         if depth = 0 then .panic "from_paths: depth - 1"
         else .ok { leaves := leaves, nodes := rows, depth := (depth - 1) % 256 }
 
+-- ---------------------------------------------------------------------------------------------
+-- serialization of the node rows (proofs.rs: serialize_nodes, deserialize)
+
+/-- kinds of `DeserializationError` -/
+inductive DeErr where
+  | eof | invalid
+  deriving DecidableEq, Repr
+
+/-- how digests are written and read: `enc` is `Serializable::write_into`, `dec` is
+    `Deserializable::read_from` on the unread bytes of a reader (the digest and the bytes left) -/
+structure Codec (D : Type) where
+  enc : D → List Nat
+  dec : List Nat → Except DeErr (D × List Nat)
+
+def encRow {D} (C : Codec D) : List D → List Nat
+  | [] => []
+  | d :: ds => C.enc d ++ encRow C ds
+
+/-- the loop of `serialize_nodes` over the node vectors -/
+def serRows {D} (C : Codec D) : List (List D) → Res (List Nat)
+  | [] => .ok []
+  | row :: rows =>
+    if row.length > 255 then .panic "serialize_nodes: too many nodes"
+    else do
+      let rest ← serRows C rows
+      .ok (row.length :: encRow C row ++ rest)
+
+/-- `BatchMerkleProof::serialize_nodes` -/
+def serializeNodes {D} (C : Codec D) (p : BatchProof D) : Res (List Nat) :=
+  if p.nodes.length > 255 then .panic "serialize_nodes: too many paths"
+  else do
+    let rest ← serRows C p.nodes
+    .ok (p.nodes.length :: rest)
+
+/-- `ByteReader::read_many` -/
+def readMany {D} (C : Codec D) : Nat → List Nat → Except DeErr (List D × List Nat)
+  | 0, bytes => .ok ([], bytes)
+  | n + 1, bytes =>
+    match C.dec bytes with
+    | .error e => .error e
+    | .ok (d, bytes) =>
+      match readMany C n bytes with
+      | .error e => .error e
+      | .ok (ds, bytes) => .ok (d :: ds, bytes)
+
+/-- the loop of `deserialize` over the node vectors -/
+def readRows {D} (C : Codec D) : Nat → List Nat → Except DeErr (List (List D) × List Nat)
+  | 0, bytes => .ok ([], bytes)
+  | n + 1, bytes =>
+    match bytes with
+    | [] => .error .eof
+    | numDigests :: bytes =>
+      match readMany C numDigests bytes with
+      | .error e => .error e
+      | .ok (row, bytes) =>
+        match readRows C n bytes with
+        | .error e => .error e
+        | .ok (rows, bytes) => .ok (row :: rows, bytes)
+
+/-- `BatchMerkleProof::deserialize`: the proof and the bytes left unread -/
+def deserialize {D} (C : Codec D) (nodeBytes : List Nat) (leaves : List D) (depth : Nat) :
+    Except DeErr (BatchProof D × List Nat) :=
+  if depth = 0 then .error .invalid
+  else if leaves.isEmpty then .error .invalid
+  else if leaves.length > maxPaths then .error .invalid
+  else
+    match nodeBytes with
+    | [] => .error .eof
+    | numNodeVectors :: bytes =>
+      match readRows C numNodeVectors bytes with
+      | .error e => .error e
+      | .ok (nodes, bytes) => .ok ({ leaves := leaves, nodes := nodes, depth := depth }, bytes)
+
 end Model.Merkle
